@@ -21,7 +21,7 @@ CONFIGS = {
                 "Cyrillic/Greek/Latin-1, non-BMP, duplicates) x coverage x n-gram x alphabet size x encoding -> real trainer -> real "
                 "loader with skip_brute -> real queue + expansion to exhaustion (<= 60000 guesses); oracle: every accepted training "
                 "password whose structure has no E/W and whose letters have one-to-one case maps is in the emitted set; sum of "
-                "probability x guesses == 1 +- 1e-9; non-trivial = list with >= 3 distinct base structures or a multi-word; "
+                "probability x guesses == 1 +- 1e-9; large lists (300-2500 lines): each password followed through the ruleset (structure loaded, terminals and masks in loaded groups, real expansion of that one pre-terminal contains it); non-trivial = list with >= 3 distinct base structures or a multi-word; "
                 "distinct = distinct (list, options)",
         "components": {"real": ["run_trainer", "savers", "grammar_io loader", "PcfgQueue", "create_guesses"], "stub": ["uuid", "stdout recorder"]},
         "assumptions": ["worlds on which the trainer itself fails (e.g. OMEN smoothing on degenerate lists) are outside 'training completes'"],
@@ -114,8 +114,81 @@ def gen_world(t, need_small=True):
     return pws, opts
 
 
+def derivation_route(res, tr, opts):
+    """large lists: the run cannot be enumerated, so each training password is followed through the ruleset instead --
+    its base structure must be loaded, every terminal and mask must be in a loaded group, and the real expansion of
+    exactly that pre-terminal must contain the password (that every pre-terminal is emitted is C02's subject)"""
+    out = guesser.LineRecorder()
+    with guesser.streams(out, guesser.Sink()):
+        pcfg = guesser.load(tr.rule_dir, skip_brute=True)
+    loaded = {tuple(b["replacements"]) for b in pcfg.base}
+    index = {}
+    for var, groups in pcfg.grammar.items():
+        index[var] = {v: gi for gi, g in enumerate(groups) for v in g["values"]}
+    done = set()
+    structs = set()
+    for pw, sections in tr.cap.parses:
+        if sections is None or pw in done:
+            continue
+        done.add(pw)
+        labels = [l for _, l in sections]
+        structs.add("".join(labels))
+        if any(l[0] in "EW" for l in labels):
+            res.stats["unsupported_structure_passwords"] += 1
+            continue
+        if not case_domain(pw):
+            res.stats["outside_case_domain"] += 1
+            continue
+        pt = []
+        reps = []
+        why = None
+        for text, label in sections:
+            value = text.lower() if label[0] == "A" else text
+            gi = index.get(label, {}).get(value)
+            if gi is None:
+                why = "terminal %r missing from %s" % (value, label)
+                break
+            pt.append((label, gi))
+            reps.append(label)
+            if label[0] == "A":
+                mask = "".join("U" if c.isupper() else "L" for c in text)
+                cl = "C" + label[1:]
+                mi = index.get(cl, {}).get(mask)
+                if mi is None:
+                    why = "mask %r missing from %s" % (mask, cl)
+                    break
+                pt.append((cl, mi))
+                reps.append(cl)
+        if why is None and tuple(reps) not in loaded:
+            why = "base structure %s not loaded" % "".join(labels)
+        if why is None:
+            size = 1
+            for var, gi in pt:
+                size *= len(pcfg.grammar[var][gi]["values"])
+            if size > 40000:
+                res.stats["expansion_too_large_to_check"] += 1
+                continue
+            out.take()
+            with guesser.streams(out, guesser.Sink()):
+                pcfg.create_guesses([list(x) for x in pt])
+            if pw not in guesser.split_lines(out.take()):
+                why = "the expansion of its pre-terminal does not contain it"
+        if why:
+            res.violate("C03", "training_password_not_reproduced", {"password": pw, "structure": "".join(labels), "why": why,
+                                                                    "route": "derivation (large list)", "encoding": opts["encoding"]})
+            break
+        res.stats["passwords_followed_through_the_ruleset"] += 1
+    res.stats["large_lists"] += 1
+    return structs
+
+
 def run_c03(t, tier, res):
+    large = t.chance(1, 30 if tier == "quick" else 8)
     pws, opts = gen_world(t)
+    if large:
+        enc = opts["encoding"]
+        pws, o2 = trainer.gen_list(t, {"encoding": enc, "nonascii": t.chance(1, 2), "large": True, "zoo": enc == "utf-8" and t.chance(1, 4)})
+        opts = dict(o2, coverage=opts["coverage"])
     if opts["coverage"] == 0.0:
         opts["coverage"] = 0.3
     scratch.fresh_disk()
@@ -123,6 +196,17 @@ def run_c03(t, tier, res):
     res.sample = {"passwords": pws[:14], "n": len(pws), "opts": opts}
     if not tr.ok:
         res.rejected = "trainer_failed"
+        return
+    if large:
+        try:
+            structs = derivation_route(res, tr, opts)
+        except Exception:
+            import traceback
+            res.violate("C03", "guesser_raised", {"exception": traceback.format_exc()[-900:], "route": "derivation (large list)"})
+            return
+        res.nontrivial = digest_of([pws[:50], len(pws), opts]) if len(structs) >= 3 else None
+        res.shape = (opts["encoding"], opts["coverage"], "large")
+        res.digest = digest_of([sorted(structs), len(pws), [v.as_dict() for v in res.violations]])
         return
     try:
         strings, mass, n, err = run_guesser(tr.rule_dir, skip_brute=True)
